@@ -493,7 +493,7 @@ def _run(case: Dict[str, Any], sim: Sim, world: World) -> None:
             if bool(got) != bool(pristine):
                 raise Violation(PROP, site, "answer_depends_on_history", cond,
                                 {"with_history": len(got), "pristine": len(pristine), "engine": c, "host": h["spec"], "pattern": p["spec"]})
-            if not isinstance(got, list):
+            if not isinstance(got, (list, tuple)):
                 raise Violation(PROP, site, "embedding_invalid", "", {"type": repr(type(got))})
             sibm = fresh_engine(dict(c, wl1=not c["wl1"])).get_mappings(h["g"], p["g"])
             sim.probe("filter_on_off_pair")
@@ -525,7 +525,8 @@ def _run(case: Dict[str, Any], sim: Sim, world: World) -> None:
             for m in list(got) + list(pristine) + list(sibm):     # returned containers belong to the caller
                 if isinstance(m, dict):
                     m.clear()
-            got.clear()
+            if isinstance(got, list):
+                got.clear()
         elif k == "q_sub":
             ch, pa = pick(op["child"]), pick(op["parent"])
             note_pair(ch, pa)
@@ -645,8 +646,10 @@ def _run(case: Dict[str, Any], sim: Sim, world: World) -> None:
             sim.event("q_find", {"n": len(res2[False])})
             for lst in res2.values():
                 for m in lst:
-                    m.clear()
-                lst.clear()
+                    if isinstance(m, dict):
+                        m.clear()
+                if isinstance(lst, list):
+                    lst.clear()
         check_unmutated(k)
 
 
